@@ -28,6 +28,24 @@ def headerMap (m : Msg) : List KV :=
 /-- The HAR header list, canonically ordered (Go iterates a map). -/
 def harHeaders (m : Msg) : List KV := sortKV (headerMap m)
 
+/-- `proxyutil.Header.All` for the three keys that `net/http` keeps in struct fields: the values the
+field stands for, `none` when the field is absent (empty `Host` or a response, `ContentLength ≤ 0`,
+nil `TransferEncoding`) or the key is an ordinary one. -/
+def fieldOf (m : Msg) (k : Bytes) : Option (List Bytes) :=
+  if k == hostKey then (if m.isReq && !m.host.isEmpty then some [m.host] else none)
+  else if k == clKey then (if 0 < m.cl then some [itoa m.cl] else none)
+  else if k == teKey then (if m.te.isEmpty then none else some m.te)
+  else none
+
+/-- The field lines of the head as an HTTP/1 peer sends them (`headSection` without start line and
+blank line): Host, Transfer-Encoding (one joined line), Content-Length from the struct fields, then
+the header map without those keys. -/
+def wireFields (m : Msg) : List KV :=
+  (if m.isReq && !m.host.isEmpty then [(hostKey, m.host)] else [])
+  ++ (if m.te.isEmpty then [] else [(teKey, join m.te (strBytes ", "))])
+  ++ (if !isChunked m.te && 0 ≤ m.cl then [(clKey, itoa m.cl)] else [])
+  ++ (sortKV m.hdr).filter fun kv => !(if m.isReq then [hostKey, clKey, teKey] else [clKey, teKey]).contains kv.1
+
 /-! ### post data -/
 
 structure Param where
